@@ -74,6 +74,13 @@ def is_mapop(t):
     return c.startswith("std::collections::hash::map::") and c.endswith(("::get", "::get_mut", "::insert", "::remove", "::entry", "::contains_key", "::remove_entry", "::get_or_insert_with", "::clear", "::retain"))
 
 
+def is_entry_obj_op(t):
+    """an operation on an entry object of the table (`registry.entry(key)` matched into Vacant / Occupied): the key was
+    given to `entry`, these act on that slot"""
+    st_ = t.get("self_ty") or ""
+    return is_mapop(t) and ("hash::map::VacantEntry<" in st_ or "hash::map::OccupiedEntry<" in st_)
+
+
 def live_fn_arg(t):
     for a in t["args"]:
         if a.get("k") == "const" and a.get("fn") in LIVE:
@@ -196,9 +203,9 @@ class RegisterSpec(nfa.Spec):
     def step(self, st, label):
         ev = label.split("@")[0]
         ph = st[0]
-        if ev == "sw:Option::None" and ph == "s0":
+        if ev in ("sw:Option::None", "sw:Entry::Vacant") and ph == "s0":
             return ("absent",)
-        if ev == "sw:Option::Some" and ph == "s0":
+        if ev in ("sw:Option::Some", "sw:Entry::Occupied") and ph == "s0":
             return ("present",)
         # `contains_key(key)` first, the liveness of the entry second
         if ev == "bool:has=1" and ph == "s0":
@@ -250,7 +257,8 @@ def registry_alphabet(fx=None):
         return lambda t: is_acquire(t) and acquire_kind(t) == kind
     calls = [("acq_" + k, acq(k)) for k in ("write", "read", "try_read", "try_write", "upgradable_read", "write_blocking", "read_blocking")]
     calls += [
-        ("mapinsert", lambda t: is_mapop(t) and (t.get("callee") or "").endswith(("::insert", "::entry", "::get_or_insert_with"))),
+        # (`entry(key)` alone changes nothing: what is done with the entry does — `or_insert*`, or `insert` on the matched slot)
+        ("mapinsert", lambda t: (is_mapop(t) and (t.get("callee") or "").endswith(("::insert", "::get_or_insert_with"))) or ((t.get("callee") or "").startswith("std::collections::hash::map::") and (t.get("callee") or "").endswith(("::or_insert", "::or_insert_with", "::or_insert_with_key", "::or_default", "::insert_entry")))),
         ("mapremove", lambda t: is_mapop(t) and (t.get("callee") or "").endswith(("::remove", "::remove_entry", "::clear", "::retain"))),
         ("has", lambda t: is_mapop(t) and (t.get("callee") or "").endswith("::contains_key")),
         ("mapread", lambda t: is_mapop(t)),
@@ -261,7 +269,7 @@ def registry_alphabet(fx=None):
         ("detach", nfa.callee_is("actor::spawner::actor_handle::ActorHandle::<A>::detach")),
         ("memdrop_guard", lambda t: (t.get("callee") == "core::mem::drop") and "async_lock::rwlock::RwLock" in " ".join(t.get("argtys", []))),
     ]
-    a = nfa.Alphabet(calls=calls, adts={"core::option::Option": "Option", "core::result::Result": "Res"}, bools={"dead", "live", "has"}, retval=True)
+    a = nfa.Alphabet(calls=calls, adts={"core::option::Option": "Option", "core::result::Result": "Res", "std::collections::hash::map::Entry": "Entry"}, bools={"dead", "live", "has"}, retval=True)
     a.drop_types = [("async_lock::rwlock::RwLockWriteGuard<", "guard"), ("async_lock::rwlock::RwLockReadGuard<", "guard"), ("async_lock::rwlock::RwLockUpgradableReadGuard<", "guard")]
     return a
 
@@ -402,10 +410,19 @@ def check_cfg(ctx, fx, cfg):
         for _, t in b.normal_calls():
             if is_mapop(t):
                 rs = roots(b, t["args"][0])
+                if is_entry_obj_op(t):
+                    # the slot came from `<guarded map>.entry(key)`: judged by where that map came from
+                    rs2 = set()
+                    for r_ in rs:
+                        if r_.kind.startswith("call:std::collections::hash::map::") and r_.kind.endswith("::entry"):
+                            rs2 |= roots(b, b.blocks[r_.site[0]]["t"]["args"][0])
+                        else:
+                            rs2.add(r_)
+                    rs = rs2
                 ok = all(r.kind in ("await", "call:" + a_["callee"]) or r.kind.startswith("call:async_lock") for r in rs for a_ in acqs) if acqs else False
                 ok = ok or all(r.kind == "await" or r.kind.startswith("call:async_lock::rwlock") for r in rs)
                 ctx.require(ok, "R08.2", inst + ":map-under-guard:" + t["callee"].split("::")[-1], "a map operation does not go through the guard: %s" % sorted(map(str, rs)), fn=f["def"], site=t["l"])
-                if len(t["args"]) > 1:
+                if len(t["args"]) > 1 and not is_entry_obj_op(t):
                     kr = b.origins(t["args"][1])
                     def is_key(ct_):
                         if (ct_.get("callee") or "").endswith("::of") and (ct_.get("gargs") or [None])[0] in ("A", "Self"):
@@ -421,12 +438,18 @@ def check_cfg(ctx, fx, cfg):
                     def key_origin_ok(body_, fn_, o, depth=0):
                         if o.kind == "call":
                             return is_key(body_.call_at(o))
-                        if o.kind == "upvar" and depth < 3 and not [e for e in o.proj if e != "*"]:
-                            # computed before the async block / closure and moved in (`let key = TypeId::of::<Self>(); async move { .. }`)
+                        if o.kind == "upvar" and depth < 3:
+                            # computed before the async block / closure and moved in (`let key = TypeId::of::<Self>(); async move { .. }`),
+                            # possibly as a field of a small struct (`service.key` with `service = ServiceId::of::<Self>()`)
                             cap = graph.capture_operand(fx, fn_, o.site)
                             if cap is not None:
                                 pf, pop = cap
-                                pb_ = ctx.body(fx, pf)
+                                pb_ = inline.body(ctx, fx, pf, inline.not_public)
+                                flds = [e for e in o.proj if e != "*" and not str(e).startswith("<part:")]
+                                if flds and pop.get("k") in ("move", "copy"):
+                                    pop = dict(pop, p=list(pop["p"]) + flds)
+                                elif flds:
+                                    return False
                                 pos = pb_.origins(pop)
                                 return bool(pos) and all(key_origin_ok(pb_, pf, x, depth + 1) for x in pos)
                         return False
@@ -444,7 +467,7 @@ def check_cfg(ctx, fx, cfg):
             # what is inserted is (a clone of) the address being registered
             for _, t in b.normal_calls():
                 if is_mapop(t) and t["callee"].endswith("::insert"):
-                    vr = roots(b, t["args"][2])
+                    vr = roots(b, t["args"][-1])  # (key, value) on the map, (value) on a matched entry
                     ctx.require(all(r.kind == "upvar" for r in vr), "R08.3", inst + ":inserts-self", "register must insert the address it was called on", fn=f["def"], site=t["l"])
         elif short == "replace":
             check_returns_map_result(ctx, fx, f, b, inst, "insert")
